@@ -35,7 +35,7 @@ type Program struct {
 	AssertPrefix     string
 }
 
-var gritsPkgs = []string{"grits/types", "grits/process", "grits/parser", "grits/cmd", "grits/position"}
+var gritsPkgs = []string{"grits/types", "grits/process", "grits/parser", "grits/cmd", "grits/position", "grits/zzpub"}
 
 // BuildOverlay maps every harness file to its virtual location inside /repo.
 func BuildOverlay(repo, harness string) (map[string]string, error) {
@@ -156,7 +156,7 @@ func Load(repo, harness string, want ...string) (*Program, error) {
 
 // packages whose init we run concretely before each worker starts
 var initPkgs = map[string]bool{
-	"grits/types": true, "grits/process": true, "grits/parser": true, "grits/cmd": true, "grits/position": true,
+	"grits/types": true, "grits/process": true, "grits/parser": true, "grits/cmd": true, "grits/position": true, "grits/zzpub": true,
 	"errors": false,
 }
 
